@@ -31,7 +31,8 @@ func NICode(name string) int {
 var (
 	V4Keys = map[uint64]string{1: "1.0.0.0/8", 2: "2.0.0.0/8", 3: "3.3.3.0/24", 4: "4.4.4.4/32",
 		11: "1.2.3.4/33", 12: "256.1.1.0/24", 13: "", 14: "garbage", 15: "1.1.1.1"}
-	V6Keys = map[uint64]string{1: "2001:db8::/32", 2: "2001:db8:1::/48", 3: "::/0", 4: "2001:db8::1/128",
+	// 5 and 6 are other spellings of 2 and 1 (upper-case hex, uncompressed zeros): valid, and distinct keys for the RIB
+	V6Keys = map[uint64]string{1: "2001:db8::/32", 2: "2001:db8:1::/48", 3: "::/0", 4: "2001:db8::1/128", 5: "2001:DB8:1::/48", 6: "2001:db8:0:0::/32",
 		11: "2001:db8::/129", 12: "1.0.0.0/8", 13: "", 14: "garbage"}
 	// metadata byte strings by value code (extra field 1 of top-level entries)
 	MetaVals = map[uint64][]byte{1: {1}, 2: {2, 3}, 3: {0xff, 0, 7}}
